@@ -72,6 +72,8 @@ func runC19(c *Ctx) {
 			want PlainT
 		}
 		var all []kept
+		var reusedI InternT // destinations re-used across the whole history
+		var reusedP PlainT
 		buf := make([]byte, 0, 512)
 		desc := fmt.Sprintf("history of %d interned reads: %q", steps, trunc(fmt.Sprint(inputs), 300))
 		for i, s := range inputs {
@@ -97,6 +99,12 @@ func runC19(c *Ctx) {
 				if overlaps(str, buf) {
 					c.native = append(c.native, NativeViolation{Case: desc, What: "an interned string points into the caller's buffer", Class: "intern-aliases-input"})
 				}
+			}
+			// the same data into re-used destinations: interned and plain must keep agreeing
+			pi.Unmarshal(buf, &reusedI)
+			pi.Unmarshal(buf, &reusedP)
+			if reusedI.S != reusedP.S || reusedI.N != reusedP.N {
+				c.native = append(c.native, NativeViolation{Case: desc, What: fmt.Sprintf("re-used destination: interned field holds %q / %+v, plain field %q / %+v", reusedI.S, reusedI.N, reusedP.S, reusedP.N), Class: "intern-differs-reused"})
 			}
 			for j := range buf {
 				buf[j] = 0xEE // scribble
